@@ -281,3 +281,36 @@ def expr_level_guards(func: FuncInfo, inner: ast.AST) -> List[Tuple[ast.AST, boo
 def stmt_text(node: ast.AST, limit: int = 100) -> str:
     t = norm(node).replace("\n", " ")
     return t if len(t) <= limit else t[: limit - 3] + "..."
+
+
+# ---------------------------------------------------------------------------
+# canonical atoms (comparison + truth) for small postcondition arguments
+# ---------------------------------------------------------------------------
+_NEG = {ast.IsNot: ast.Is, ast.NotEq: ast.Eq, ast.NotIn: ast.In}
+
+
+def canon_atom(e: ast.AST, truth: bool = True) -> Tuple[str, str, str, bool]:
+    """('is'|'=='|'in'|'<'|'<='|'>'|'>='|'truthy'|'call', left, right, truth): ``a is not b`` held true is ('is', a, b, False)."""
+    while isinstance(e, ast.UnaryOp) and isinstance(e.op, ast.Not):
+        e, truth = e.operand, not truth
+    cp = compare_parts(e)
+    if cp is not None:
+        l, op, r = cp
+        if type(op) in _NEG:
+            op, truth = _NEG[type(op)](), not truth
+        name = {ast.Is: "is", ast.Eq: "==", ast.In: "in", ast.Lt: "<", ast.LtE: "<=", ast.Gt: ">", ast.GtE: ">="}.get(type(op), type(op).__name__)
+        ln, rn = norm(l), norm(r)
+        if name in ("is", "==") and rn < ln:
+            ln, rn = rn, ln
+        return (name, ln, rn, truth)
+    return ("truthy", norm(e), "", truth)
+
+
+def loop_exit_atoms(test: ast.AST) -> Tuple[str, List[Tuple[str, str, str, bool]]]:
+    """What holds when ``while test`` falls through: ('any', atoms) = at least one of them, ('all', atoms) = every one."""
+    t = test
+    if isinstance(t, ast.BoolOp) and isinstance(t.op, ast.And):
+        return "any", [canon_atom(v, False) for v in t.values]
+    if isinstance(t, ast.BoolOp) and isinstance(t.op, ast.Or):
+        return "all", [canon_atom(v, False) for v in t.values]
+    return "all", [canon_atom(t, False)]
